@@ -687,6 +687,40 @@ def run(run):
                 run.violated("R4", key, "no arm")
                 continue
             site = F.loc(ent[1]["b"])
+            # delegation to the sibling flag with a negated operand: sborrow(a, b) := scarry(a, -b) (or vice versa).
+            # sign(-b) is the opposite of sign(b) EXCEPT for b == 0 (stays non-negative) and b == MIN (stays negative),
+            # so the table is evaluated over the three operand classes {other, zero, MIN}; a + (-b) and a - b are the same
+            # bit-vector, so the callee's result atom is the caller's.
+            dele = strip(ent[0])
+            if is_call(dele, "bin_op") and len(dele[2]) == 3 and dele[2][1][0] == "adt" and dele[2][1][2] in ("IntSCarry", "IntSBorrow") and dele[2][1][2] != v:
+                w = dele[2][1][2]
+                a0, b0 = strip_conv(dele[2][0]), strip_conv(dele[2][2])
+                negated = (b0[0] == "neg" and is_var(strip_conv(b0[1]), "rhs")) or (is_call(b0, ("neg", "into_negate")) and b0[2] and is_var(strip_conv(b0[2][0]), "rhs"))
+                entw = t_bv.get(w)
+                ffw = flag_formula(entw[0]) if entw else None
+                w_res = is_sum if w == "IntSCarry" else is_diff
+                tabw = sign_table(ffw[0], w_res) if ffw else None
+                if is_var(a0, "self") and negated and tabw is not None:
+                    wrong = []
+                    for cls in ("other", "zero", "MIN"):
+                        for r in (False, True):
+                            for a in (False, True):
+                                for b in (False, True):
+                                    if cls == "zero" and (b or r != a):
+                                        continue
+                                    if cls == "MIN" and (not b or r == a):
+                                        continue
+                                    nb = (not b) if cls == "other" else b
+                                    got = tabw[(r, a, nb)] == ffw[1]
+                                    if got != ref(r, a, b):
+                                        wrong.append((cls, r, a, b))
+                    if wrong:
+                        cls, r, a, b = wrong[0]
+                        run.violated("R4", key, "%s is computed as %s(self, -rhs); -rhs has the opposite sign of rhs except for rhs == 0 and rhs == MIN, and for rhs %s with sign(self)=%s the delegated flag differs from P-Code (%s) (%d operand classes wrong)" % (
+                            v, w, "== " + cls if cls != "other" else "in the generic class", "neg" if a else "nonneg", refname, len(wrong)), site)
+                    else:
+                        run.holds("R4", key, "delegates to %s with a negated operand; equal on all operand classes" % w, site)
+                    continue
             ff = flag_formula(ent[0])
             if ff is None:
                 run.undecided("R4", key, "arm is not `if cond {1} else {0}`: %s" % fmt(ent[0]), site)
